@@ -125,13 +125,15 @@ func (e *toolEnv) concrete(t *toolTree) Tree {
 		"crs/regex-assembly/notes.md":           "##!> assemble\n  not an assembly file\n",
 		"crs/regex-assembly/932100.ra.orig":     "   stale  \n",
 		// not the assembly file of a rule (and already in canonical layout): sorts between 932100-chain1.ra and 932100.ra
-		"crs/regex-assembly/932100-draft.ra":                fmtHeader + "draft\n",
-		"crs/README.md":                                     "# OWASP CRS ver.4.0.0\nSecComponentSignature \"OWASP_CRS/4.0.0\"\n",
-		"crs/rules/notes.txt":                               "id:932100 \"@rx decoy\" \\\n",
-		"crs/rules/REQUEST-933-OTHER.conf.bak":              "SecRule ARGS \"@rx keep\" \\\n    \"id:933100,\\\n    ver:'OWASP_CRS/4.0.0'\"\n",
-		"crs/rules/REQUEST-933-APPLICATION-ATTACK-PHP.conf": "SecRule ARGS \"@rx keep\" \\\n    \"id:933100,\\\n    block\"\n",
-		filepath.Dir("crs/"+toolTestPath) + "/932100":       "  - test_id: 5\n",
-		filepath.Dir("crs/"+toolTestPath) + "/notes.md":     "  - test_id: 5\n",
+		"crs/regex-assembly/932100-draft.ra":                    fmtHeader + "draft\n",
+		"crs/README.md":                                         "# OWASP CRS ver.4.0.0\nSecComponentSignature \"OWASP_CRS/4.0.0\"\n",
+		"crs/" + toolSetupPath + ".tmp":                         "SecComponentSignature \"OWASP_CRS/4.0.0\"\n",
+		"crs/rules/REQUEST-933-APPLICATION-ATTACK-PHP.conf.tmp": "SecRule ARGS \"@rx keep\" \\\n    \"id:932100,\\\n    ver:'OWASP_CRS/4.0.0'\"\n",
+		"crs/rules/notes.txt":                                   "id:932100 \"@rx decoy\" \\\n",
+		"crs/rules/REQUEST-933-OTHER.conf.bak":                  "SecRule ARGS \"@rx keep\" \\\n    \"id:933100,\\\n    ver:'OWASP_CRS/4.0.0'\"\n",
+		"crs/rules/REQUEST-933-APPLICATION-ATTACK-PHP.conf":     "SecRule ARGS \"@rx keep\" \\\n    \"id:933100,\\\n    block\"\n",
+		filepath.Dir("crs/"+toolTestPath) + "/932100":           "  - test_id: 5\n",
+		filepath.Dir("crs/"+toolTestPath) + "/notes.md":         "  - test_id: 5\n",
 		// a parked test file: the only match of the glob 932110.*, and not a fix point of the renumberer
 		filepath.Dir("crs/"+toolTestPath) + "/932110.yaml.disabled": "tests:\n  - test_id: 4\n  - test_id: 4\n\n\n",
 		"crs/tests/regression/README.yaml.txt":                      "test_id: 3\n",
@@ -215,7 +217,7 @@ var reCompareVerdict = regexp.MustCompile(`(?m)^Regex of (\d+) (has not changed|
 var reRegexLine = regexp.MustCompile(`^[^\s]+$`)
 
 func checkToolchain(c *Ctx, prop string) error {
-	quota := 1500
+	quota := 2400
 	if c.Tier == "thorough" {
 		quota = 20000
 	}
@@ -300,6 +302,10 @@ func checkToolchain(c *Ctx, prop string) error {
 			k := fmt.Sprintf("%v exit=%d writes=%v", tc.Cmd[0], tc.Exit, len(tc.Wrote) > 0)
 			if b, ok := tc.Cmd[len(tc.Cmd)-1].(bool); ok {
 				k += fmt.Sprintf(" %v", b) // github mode / --check
+			}
+			if strings.HasSuffix(fmt.Sprint(tc.Cmd[0]), "-all") {
+				// what an --all run does depends on WHICH programs the files hold, in walk order
+				k += " " + jsonStr(tc.Pre.Src)
 			}
 			byCmd[k] = append(byCmd[k], tc)
 		}
@@ -387,6 +393,12 @@ func toolReplay(c *Ctx, env *toolEnv, name string, tc *toolCase, cli *int64) {
 	root := filepath.Join(base, "crs")
 	before, _ := snapshot(base)
 	args := append([]string{"-d", root}, toolArgs(tc.Cmd)...)
+	// the log level is not part of the model: whatever it is, exit status, tree and what generate
+	// prints on stdout are the same (every 3rd case runs at another level than the default)
+	levels := []string{"", "", "trace", "debug", "error", "disabled"}
+	if lv := levels[caseHash([]string{jsonStr(tc.Pre), jsonStr(tc.Cmd)}, c.Seed+7)%uint64(len(levels))]; lv != "" {
+		args = append([]string{"-l", lv}, args...)
+	}
 	r := c.runCLI(base, "", args...)
 	atomic.AddInt64(cli, 1)
 	after, _ := snapshot(base)
